@@ -31,6 +31,7 @@ type apiCase struct {
 	prevMem  []gmars.Instruction
 	prevRec  []recEntry
 	dead     bool
+	skipped  bool
 	deadline time.Duration
 }
 
@@ -83,8 +84,16 @@ func guarded(d time.Duration, f func()) string {
 	}
 }
 
+// apiTimeouts counts operations that hit the deadline (a spinning Run leaves a goroutine burning
+// a core); after a few of them the remaining cases of the domain are skipped
+var apiTimeouts int
+
 func newAPICase(out *bufio.Writer, id, tag string, cfg gmars.SimulatorConfig, recordReads bool) *apiCase {
-	c := &apiCase{out: out, deadline: 20 * time.Second}
+	c := &apiCase{out: out, deadline: 5 * time.Second}
+	if apiTimeouts >= 3 {
+		c.dead, c.skipped = true, true
+		return c
+	}
 	rr := 0
 	if recordReads {
 		rr = 1
@@ -120,6 +129,9 @@ func newAPICase(out *bufio.Writer, id, tag string, cfg gmars.SimulatorConfig, re
 }
 
 func (c *apiCase) end() {
+	if c.skipped {
+		return
+	}
 	fmt.Fprintf(c.out, "E\n")
 }
 
@@ -193,6 +205,9 @@ func (c *apiCase) finish(req, failure, resp string, observed bool) {
 	if failure != "" {
 		fmt.Fprintf(c.out, "%s | %s\n", req, failure)
 		c.dead = true
+		if failure == "timeout" {
+			apiTimeouts++
+		}
 		return
 	}
 	if observed {
